@@ -6,6 +6,8 @@ oracle is `analyse` / `tomography_shape` below: a transcription of the property
 statement that never looks at quara's validation code.  The workload is the
 complete enumeration of a bounded schedule language (see RULE / EXHAUSTIVE_SCOPE).
 """
+import contextlib
+import copy as _copy
 import inspect
 import itertools
 import numbers
@@ -43,7 +45,7 @@ REQUIRED_REACH = ANCHORS
 REQUIRED_ORACLES = ["Experiment.ctor.accept", "Experiment.ctor.error-type", "Experiment.list-setter.accept",
                     "Experiment.schedules.setter.accept", "Experiment.setter.rejected-unchanged",
                     "calc_prob_dist.executes", "calc_prob_dist.sum-to-one", "calc_prob_dist.none-placeholder",
-                    "tomography.ctor.accept", "tomography.ctor.string"]
+                    "tomography.ctor.accept", "tomography.ctor.string", "Experiment.copy.accept", "tomography.execution"]
 MIN_EVALS = {"quick": 1000000, "thorough": 5000000}
 WATCHDOG = {"quick": 900, "thorough": 3600}
 ASSUMPTIONS = [
@@ -162,6 +164,28 @@ class Mon:
         self.physical = set()   # ids of objects known to be physical (fixtures)
         self.keep = []
         self.deep_budget = 40
+        self.tag = ""           # history suffix of the keys of every hook verdict (set by the history workloads)
+        self.trail = []         # the public operations of the current history, for the info of a violation
+
+    # ---- history bookkeeping
+    @contextlib.contextmanager
+    def tagged(self, tag):
+        old, self.tag = self.tag, tag
+        try:
+            yield
+        finally:
+            self.tag = old
+
+    def step(self, text):
+        self.trail.append(text)
+        if len(self.trail) > 40:
+            del self.trail[:-40]
+
+    def hist(self, info=None):
+        info = dict(info or {})
+        if self.trail:
+            info["history"] = " -> ".join(self.trail[-16:])
+        return info
 
     # ---- helpers
     def sizes_of(self, lists):
@@ -191,9 +215,9 @@ class Mon:
             if ok:
                 ctx.truth(name, True)
             else:
-                ctx.truth(name, False, key=key, info={
+                ctx.truth(name, False, key=key + self.tag, info=self.hist({
                     "schedules": repr(schedules)[:300], "sizes": sizes, "class": cls,
-                    "raised": None if exc is None else f"{type(exc).__name__}: {str(exc)[:120]}"})
+                    "raised": None if exc is None else f"{type(exc).__name__}: {str(exc)[:120]}"}))
 
         if want is None:
             ctx.skip(oracle + ".accept")
@@ -279,7 +303,9 @@ class Mon:
                 if boundary:
                     ctx.nontrivial(site, repr(scheds), "%d.%d.%d.%d" % tuple(sizes[k] for k in KINDS))
                 if exc is None:
-                    ctx.truth("Experiment.setter.stores", getattr(e, name) is value, key=f"{site}:accepted-value-not-stored")
+                    ok = getattr(e, name) is value
+                    ctx.truth("Experiment.setter.stores", ok, key=f"{site}:accepted-value-not-stored" + self.tag,
+                              info=None if ok else self.hist())
                 else:
                     self.unchanged(site, e, snap)
 
@@ -305,7 +331,9 @@ class Mon:
             if boundary:
                 ctx.nontrivial(site, repr(value), "%d.%d.%d.%d" % tuple(sizes[k] for k in KINDS))
             if exc is None:
-                ctx.truth("Experiment.setter.stores", e.schedules is value, key=f"{site}:accepted-value-not-stored")
+                ok = e.schedules is value
+                ctx.truth("Experiment.setter.stores", ok, key=f"{site}:accepted-value-not-stored" + self.tag,
+                          info=None if ok else self.hist())
             else:
                 self.unchanged(site, e, snap)
 
@@ -337,9 +365,10 @@ class Mon:
                 ctx.skip("calc_prob_dist.executes")
                 return
             s, objs, ends_povm = p
-            info = {"schedule": repr(s), "class": valid_class(s)}
+            info = self.hist({"schedule": repr(s), "class": valid_class(s)})
+            tag = self.tag
             if any(o is None for o in objs):
-                ctx.truth("calc_prob_dist.none-placeholder", False, key="calc_prob_dist:none-placeholder:no-error", info=info)
+                ctx.truth("calc_prob_dist.none-placeholder", False, key="calc_prob_dist:none-placeholder:no-error" + tag, info=info)
                 return
             if not ends_povm:
                 ctx.skip("calc_prob_dist.executes")
@@ -354,14 +383,14 @@ class Mon:
                     n *= len(o.hss)
             v = np.asarray(result)
             shape_ok = v.ndim == 1 and v.shape[0] == n and v.dtype.kind == "f"
-            ctx.truth("calc_prob_dist.length", shape_ok, key=f"calc_prob_dist:wrong-length:{valid_class(s)}",
+            ctx.truth("calc_prob_dist.length", shape_ok, key=f"calc_prob_dist:wrong-length:{valid_class(s)}{tag}",
                       info=dict(info, shape=list(v.shape), want=n))
             if not shape_ok:
                 return
             ctx.num("calc_prob_dist.sum-to-one", abs(float(np.sum(v)) - 1.0), 1e-12, 1e-9,
-                    key=f"calc_prob_dist:not-normalised:{valid_class(s)}", info=info)
+                    key=f"calc_prob_dist:not-normalised:{valid_class(s)}{tag}", info=info)
             ctx.num("calc_prob_dist.non-negative", max(0.0, -float(np.min(v))), 1e-12, 1e-9,
-                    key=f"calc_prob_dist:negative-probability:{valid_class(s)}", info=info)
+                    key=f"calc_prob_dist:negative-probability:{valid_class(s)}{tag}", info=info)
 
         def cpd_exc(exc, snap, e, *a, **kw):
             idx = kw.get("schedule_index", a[0] if a else None)
@@ -370,13 +399,13 @@ class Mon:
                 ctx.skip("calc_prob_dist.executes")
                 return
             s, objs, ends_povm = p
-            info = {"schedule": repr(s), "raised": f"{type(exc).__name__}: {str(exc)[:160]}"}
+            info = self.hist({"schedule": repr(s), "raised": f"{type(exc).__name__}: {str(exc)[:160]}"})
             if any(o is None for o in objs):
                 ctx.truth("calc_prob_dist.none-placeholder", isinstance(exc, ValueError),
-                          key=f"calc_prob_dist:none-placeholder:raises-{type(exc).__name__}", info=info)
+                          key=f"calc_prob_dist:none-placeholder:raises-{type(exc).__name__}{self.tag}", info=info)
             elif ends_povm:
                 ctx.truth("calc_prob_dist.executes", False,
-                          key=f"calc_prob_dist:accepted-schedule-fails:{valid_class(s)}:{ctx.exc_key(exc)}", info=info)
+                          key=f"calc_prob_dist:accepted-schedule-fails:{valid_class(s)}:{ctx.exc_key(exc)}{self.tag}", info=info)
             else:
                 ctx.skip("calc_prob_dist.executes")
                 ctx.count("open:calc_prob_dist-fails:" + valid_class(s))
@@ -397,13 +426,17 @@ class Mon:
                 sizes = {"state": nst, "povm": npo, "gate": 1 if kind == "qpt" else 0, "mprocess": 1 if kind == "qmpt" else 0}
                 info = {"schedules": repr(scheds)[:300], "sizes": sizes,
                         "raised": None if exc is None else f"{type(exc).__name__}: {str(exc)[:120]}"}
+                tag = self.tag
+                if self.trail:
+                    info = self.hist(info)
+                    info["options"] = repr({k: v for k, v in args.items() if k not in ("states", "povms", "schedules")})[:200]
                 if isinstance(scheds, str):
                     if type(scheds) is not str:
                         ctx.skip("tomography.ctor.string")
                     elif scheds == "all":
-                        ctx.truth("tomography.ctor.string", exc is None, key=f"{site}:rejects-all:{type(exc).__name__}", info=info)
+                        ctx.truth("tomography.ctor.string", exc is None, key=f"{site}:rejects-all:{type(exc).__name__}{tag}", info=info)
                     else:
-                        ctx.truth("tomography.ctor.string", exc is not None, key=f"{site}:accepts:unsupported-string", info=info)
+                        ctx.truth("tomography.ctor.string", exc is not None, key=f"{site}:accepts:unsupported-string{tag}", info=info)
                     ctx.nontrivial(site, scheds)
                     return
                 want, cls_, boundary = expected_list(scheds, sizes)
@@ -412,14 +445,14 @@ class Mon:
                     return
                 shape = all(tomography_shape(kind, s, sizes) for s in scheds)
                 if want and shape:
-                    ctx.truth("tomography.ctor.accept", exc is None, key=f"{site}:rejects-own-shape:{type(exc).__name__}", info=info)
+                    ctx.truth("tomography.ctor.accept", exc is None, key=f"{site}:rejects-own-shape:{type(exc).__name__}{tag}", info=info)
                     ctx.nontrivial(site, repr(scheds), "%d.%d.%d.%d" % tuple(sizes[k] for k in KINDS))
                 elif want:
                     w = next(s for s in scheds if not tomography_shape(kind, s, sizes))
-                    ctx.truth("tomography.ctor.accept", exc is not None, key=f"{site}:accepts:other-shape:{valid_class(w)}:len{len(w)}", info=info)
+                    ctx.truth("tomography.ctor.accept", exc is not None, key=f"{site}:accepts:other-shape:{valid_class(w)}:len{len(w)}{tag}", info=info)
                     ctx.nontrivial(site, repr(scheds), "%d.%d.%d.%d" % tuple(sizes[k] for k in KINDS))
                 else:
-                    ctx.truth("tomography.ctor.accept", exc is not None, key=f"{site}:accepts:{cls_}", info=info)
+                    ctx.truth("tomography.ctor.accept", exc is not None, key=f"{site}:accepts:{cls_}{tag}", info=info)
                     if boundary:
                         ctx.nontrivial(site, repr(scheds), "%d.%d.%d.%d" % tuple(sizes[k] for k in KINDS))
 
@@ -434,8 +467,8 @@ class Mon:
                 sizes = self.sizes_of({"state": e.states, "povm": e.povms, "gate": e.gates, "mprocess": e.mprocesses})
                 if sizes is not None and type(e.schedules) is list and all(not any(analyse(s, sizes)) for s in e.schedules):
                     bad = [s for s in e.schedules if not tomography_shape(kind, s, sizes)]
-                    ctx.truth("tomography.stored-shape", not bad, key=f"{site}:all-expands-to-other-shape",
-                              info={"schedule": repr(bad[:1])})
+                    ctx.truth("tomography.stored-shape", not bad, key=f"{site}:all-expands-to-other-shape" + self.tag,
+                              info=self.hist({"schedule": repr(bad[:1])}))
 
             hs.method(cls, "__init__", post=post, on_exc=lambda exc, snap, self_, *a, **kw: fin(exc, a, kw))
 
@@ -447,7 +480,8 @@ class Mon:
         ok = self.light(e) == snap[0]
         if ok and snap[1] is not None:
             ok = digest(e) == snap[1]
-        self.ctx.truth("Experiment.setter.rejected-unchanged", ok, key=f"{site}:rejected-setter-changed-experiment")
+        self.ctx.truth("Experiment.setter.rejected-unchanged", ok, key=f"{site}:rejected-setter-changed-experiment" + self.tag,
+                       info=None if ok else self.hist())
 
 
 # ---------------------------------------------------------------- alphabet
@@ -532,6 +566,12 @@ def shards(tier, seed):
     for kind in TOMO_MIDDLE:
         for part in _spread(list(range(17)), 2):
             out.append({"mode": "tomo", "kind": kind, "cases": part, "weight": 24})
+    # history / combination steps (new shards at the end: the older shards keep their indices and RNG streams)
+    nh = 8 if tier == "quick" else 16
+    for r in range(nh):
+        out.append({"mode": "history", "residue": r, "modulus": nh, "weight": 50})
+    for kind in TOMO_MIDDLE:
+        out.append({"mode": "tomo-history", "kind": kind, "weight": 30})
     return out
 
 
@@ -691,6 +731,28 @@ def run_special(ctx, mon, fx):
             except Exception:  # noqa: BLE001
                 ctx.count("driver-call-raised")
     classes.append(c_none)
+    # 5 (history / combination): constructor options - seed_data given, every argument positional, explicit None lists -
+    # x every defect class next to a valid schedule, on experiments that are then asked twice
+    def c_options():
+        X = mon.X
+        with mon.tagged(":option-seed_data+positional"):
+            for cfg in cfgs:
+                kw = realise(cfg, fx)
+                for d in [list(ok2)] + defect_pool():
+                    for lst in ([list(ok), d], [d]):
+                        mon.trail = [f"Experiment({repr(lst)[:120]}, ..., seed_data) positional"]
+                        try:
+                            e = X(lst, kw.get("states"), kw.get("povms"), kw.get("gates"), kw.get("mprocesses"), 11)
+                        except Exception:  # noqa: BLE001 - judged by the constructor hook
+                            continue
+                        ask(mon, e)
+                        ask(mon, e, -1)
+                        try:
+                            e.schedules = [d]
+                        except Exception:  # noqa: BLE001
+                            pass
+        mon.trail = []
+    classes.append(c_options)
     for i in ctx.cases(len(classes)):
         classes[i]()
     ctx.note("not judged (left open by the statement): acceptance of bool / numpy-integer indices in range, tuple / str subclasses, "
@@ -866,6 +928,441 @@ def run_tomo(ctx, mon, fx):
     ctx.extra["tomo_enumerated"] = total
 
 
+# ------------------------------------------------- history / combination steps
+#
+# The workloads above build a fresh object for every case and ask it once (the seeded setter walk excepted).  The steps
+# below reach the SAME oracles (the hooks; nothing new is demanded) through objects with a history: asked before and
+# after public setters, asked twice and interleaved with a twin of the same sizes, obtained through copy() or from a
+# previous library call, used after the data-generating methods, and built with non-default constructor options.
+# `mon.tagged(suffix)` appends the suffix to the key of every hook verdict reached inside.
+
+
+def twin_cfg(cfg):
+    """same list sizes, another object (or placeholder) at every index"""
+    return {k: (v if v == "omit" else [None if j is None else 1 - j for j in reversed(v)]) for k, v in cfg.items()}
+
+
+def probe(kind, i, e):
+    """a schedule that is well-formed but for the range of index i of `kind` (the hooks decide with the lists in force)"""
+    if kind == "state":
+        return [("state", i), ("povm", 0)] if len(e.povms) else [("state", i), ("mprocess", 0)]
+    if kind == "povm":
+        return [("state", 0), ("povm", i)]
+    if kind == "gate":
+        return [("state", 0), ("gate", i), ("povm", 0)] if len(e.povms) else [("state", 0), ("gate", i), ("mprocess", 0)]
+    return [("state", 0), ("mprocess", i), ("povm", 0)] if len(e.povms) else [("state", 0), ("mprocess", i)]
+
+
+def ask(mon, e, order=1):
+    """run every schedule (calc_prob_dist hook judges each call)"""
+    ctx = mon.ctx
+    idx = list(range(len(e.schedules)))[::order]
+    for i in idx:
+        try:
+            e.calc_prob_dist(i)
+            ctx.count("history:calc_prob_dist-returned")
+        except Exception:  # noqa: BLE001 - judged by the hook
+            ctx.count("history:calc_prob_dist-raised")
+
+
+def look(mon, e):
+    """the public read accessors (not judged themselves: a lazily built table behind them is what matters)"""
+    for k in KINDS:
+        try:
+            e.num_qoperations(k)
+            e.qoperations(k)
+        except Exception:  # noqa: BLE001
+            mon.ctx.count("history:accessor-raised")
+
+
+def assign(mon, e, name, value, what):
+    """public setter; the hooks judge acceptance, storage and rejected-unchanged"""
+    mon.step(f"{name}={what}")
+    try:
+        setattr(e, name, value)
+        mon.ctx.count("history:setter-accepted")
+        return True
+    except Exception:  # noqa: BLE001
+        mon.ctx.count("history:setter-rejected")
+        return False
+
+
+def describe(lst):
+    return "[" + ",".join("None" if o is None else "o" for o in lst) + "]"
+
+
+def probes_after(mon, e, kind):
+    """schedules at and beyond the end of the list now in force, then back to a schedule inside it"""
+    n = len(getattr(e, LISTARG[kind]))
+    for i in (n - 1, n, 0, n + 1):
+        if assign(mon, e, "schedules", [probe(kind, i, e)], f"[probe({kind},{i})]"):
+            ask(mon, e)
+
+
+def generate_calls(mon, e):
+    """data-generating methods: they execute schedules (judged by the calc_prob_dist hook) and look like mutators"""
+    n = len(e.schedules)
+    calls = [("calc_prob_dists", e.calc_prob_dists), ("generate_data", lambda: e.generate_data(0, 4, 7)),
+             ("generate_dataset", lambda: e.generate_dataset([3] * n, 7)),
+             ("generate_empi_dist_sequence", lambda: e.generate_empi_dist_sequence(n - 1, [2, 4], 7)),
+             ("generate_empi_dists_sequence", lambda: e.generate_empi_dists_sequence([[2] * n, [4] * n], 7)),
+             ("reset_seed_data", lambda: e.reset_seed_data(3))]
+    for name, call in calls:
+        mon.step(name)
+        try:
+            call()
+        except Exception:  # noqa: BLE001 - placeholders, schedules not ending in a POVM, scipy's strict multinomial
+            mon.ctx.count("history:generate-call-raised")
+
+
+def copy_of(mon, e, tag, cls):
+    """copy() of an accepted experiment is an experiment with the same well-formed schedule list: it must be accepted"""
+    ctx = mon.ctx
+    mon.step("copy()")
+    with mon.tagged(tag):
+        ok, c = ctx.attempt(e.copy)
+    if ok:
+        ctx.truth("Experiment.copy.accept", True)
+        return c
+    ctx.truth("Experiment.copy.accept", False, key=f"Experiment.copy:rejects-valid:{cls}:{type(c).__name__}{tag}",
+              info=mon.hist({"schedules": repr(e.schedules)[:300], "raised": f"{type(c).__name__}: {str(c)[:160]}"}))
+    return None
+
+
+def history_case(ctx, mon, fx, cn, s, others, rng):
+    X = mon.X
+    cfg = CONFIGS[cn]
+    s2 = others[int(rng.integers(0, len(others)))]
+    cls = valid_class(s)
+
+    def fresh(schedules, cfg_=cfg, **kw):
+        mon.trail = [f"Experiment({repr(schedules)[:120]}, sizes={sizes_of_cfg(cfg_)})"]
+        try:
+            return X(schedules=schedules, **realise(cfg_, fx), **kw)
+        except Exception:  # noqa: BLE001 - judged by the constructor hook
+            ctx.count("history:ctor-rejected")
+            return None
+
+    # -- S1: asked twice, in another order, interleaved with a twin of the same sizes holding other objects
+    a = fresh([list(s), list(s2)])
+    b = fresh([list(s), list(s2)], twin_cfg(cfg))
+    pair = [e for e in (a, b) if e is not None]
+    for e in pair:
+        ask(mon, e)
+    with mon.tagged(":second-call"):
+        mon.step("calc_prob_dist x all (twin interleaved)")
+        for e in pair:
+            look(mon, e)
+            ask(mon, e, -1)
+        for e in reversed(pair):
+            ask(mon, e)
+            # the setter given what the getter returns, and an equal new list: both well-formed, both must be accepted
+            assign(mon, e, "schedules", e.schedules, "same-object")
+            assign(mon, e, "schedules", [list(x) for x in e.schedules], "equal-copy")
+            ask(mon, e)
+
+    # -- S2: query -> public list setter -> query, every list x every replacement
+    for kind in KINDS:
+        for new in replacement_lists(kind, fx):
+            e = fresh([list(s)])
+            if e is None:
+                break
+            ask(mon, e)
+            look(mon, e)
+            assign(mon, e, LISTARG[kind], new, describe(new))
+            with mon.tagged(":after-setter"):
+                ask(mon, e)
+                look(mon, e)
+                probes_after(mon, e, kind)
+
+    # -- S3: one long-lived experiment per kind: grow / shrink ladder, rejected setters in between
+    for kind in KINDS:
+        o = fx[kind]
+        e = fresh([list(s)])
+        if e is None:
+            break
+        name = LISTARG[kind]
+        ask(mon, e)
+        look(mon, e)
+        with mon.tagged(":after-setter"):
+            for new in ([o[0], o[1], o[0]], [o[1]], [o[0], o[1]], [None, o[0], None, o[1]], []):
+                probes_after(mon, e, kind)             # ends on index 0 ... or on what the old list allowed
+                assign(mon, e, name, new, describe(new))
+                look(mon, e)
+                probes_after(mon, e, kind)
+                # a list that the schedule in force cannot live with (rejected), then the same questions again
+                assign(mon, e, "schedules", [probe(kind, len(getattr(e, name)) - 1, e)], "[probe(last)]")
+                assign(mon, e, name, [o[0]] if len(getattr(e, name)) > 1 else [], "shorter")
+                probes_after(mon, e, kind)
+            assign(mon, e, "schedules", [list(s)], "start")   # rejected unless the lists allow it again
+
+    # -- S4: provenance: copy(), copy of the copy; setters on the copy; the original afterwards
+    e = fresh([list(s), list(s2)], seed_data=int(rng.integers(0, 100)))
+    if e is not None:
+        ask(mon, e)
+        c = copy_of(mon, e, ":via-copy", cls)
+        if c is not None:
+            with mon.tagged(":via-copy"):
+                ask(mon, c)
+                look(mon, c)
+                kind = KINDS[int(rng.integers(0, 4))]
+                opts = replacement_lists(kind, fx)
+                new = opts[int(rng.integers(0, len(opts)))]
+                assign(mon, c, LISTARG[kind], new, describe(new))
+                ask(mon, c)
+                probes_after(mon, c, kind)
+                c2 = copy_of(mon, c, ":via-copy", "copy-of-copy")
+                if c2 is not None:
+                    ask(mon, c2)
+                    probes_after(mon, c2, KINDS[int(rng.integers(0, 4))])
+            with mon.tagged(":after-copy"):
+                mon.step("original again")
+                ask(mon, e)
+                for kind in KINDS:
+                    probes_after(mon, e, kind)
+
+    # -- S5: data-generating methods, a setter, the same methods again
+    e = fresh([list(s), list(s2)])
+    if e is not None:
+        generate_calls(mon, e)
+        with mon.tagged(":second-call"):
+            ask(mon, e, -1)
+        kind = KINDS[int(rng.integers(0, 4))]
+        opts = replacement_lists(kind, fx)
+        new = opts[int(rng.integers(0, len(opts)))]
+        assign(mon, e, LISTARG[kind], new, describe(new))
+        with mon.tagged(":after-setter"):
+            ask(mon, e)
+            generate_calls(mon, e)
+            probes_after(mon, e, kind)
+            generate_calls(mon, e)
+            ask(mon, e)
+
+    # -- S6: the schedule list of a living experiment given to experiments of other sizes, and constructor options
+    src = fresh([list(s), list(s2)])
+    if src is not None:
+        with mon.tagged(":shared-schedule-list"):
+            for other in configs_for(ctx.tier):
+                mon.trail = [f"Experiment(schedules of a living experiment, sizes={sizes_of_cfg(CONFIGS[other])})"]
+                kw = realise(CONFIGS[other], fx)
+                try:
+                    e = X(src.schedules, kw.get("states"), kw.get("povms"), kw.get("gates"), kw.get("mprocesses"), 5)
+                    ask(mon, e)
+                except Exception:  # noqa: BLE001 - judged by the constructor hook
+                    ctx.count("history:ctor-rejected")
+            ask(mon, src)
+    mon.trail = []
+    ctx.nontrivial("history", cn, repr(s), repr(s2))
+
+
+def run_history(ctx, mon, fx):
+    p = ctx.params
+    names = configs_for(ctx.tier)
+    allok = {cn: accepting(CONFIGS[cn]) for cn in names}
+    work = [(cn, s) for cn in names for s in allok[cn]]
+    mine = [w for j, w in enumerate(work) if j % p["modulus"] == p["residue"]]
+    for ci in ctx.cases(len(mine)):
+        cn, s = mine[ci]
+        history_case(ctx, mon, fx, cn, s, allok[cn], ctx.rng())
+        if ci < 2:
+            ctx.sample({"site": "history", "config": cn, "start": repr(s),
+                        "steps": "twice+twin, query-setter-query x 24, ladder x 4, copy, generate-methods, shared schedule list"})
+
+
+def extra_fixtures(ctx, mon, fx):
+    """second true objects on the fixtures' composite system (own RNG stream: the fixtures stay what they were)"""
+    rng = ctx.rng(7)
+    c = fx["state"][0].composite_system
+    ex = {"state": gen.rand_state(c, rng), "povm": gen.rand_povm(c, 3, rng), "gate": gen.rand_gate(c, rng),
+          "mprocess": gen.rand_mprocess(c, 2, rng)}
+    for o in ex.values():
+        mon.physical.add(id(o))
+    mon.keep.append(ex)
+    return ex
+
+
+TOMO_TRUE = {"qst": "state", "povmt": "povm", "qpt": "gate", "qmpt": "mprocess"}
+# constructor options that the classes can be built with (is_physicality_required=True cannot: the zero template object is
+# rejected whatever the schedules are)
+TOMO_OPTIONS = [
+    ("on_para_eq_constraint", {"on_para_eq_constraint": True}),
+    ("estimation-object+seed", {"is_estimation_object": True, "seed_data": 7}),
+    ("eps+on_para_eq_constraint+seed", {"eps_proj_physical": 1e-4, "eps_truncate_imaginary_part": 1e-4,
+                                        "on_para_eq_constraint": True, "seed_data": 1}),
+    ("positional", "positional"),
+]
+
+
+def run_tomo_history(ctx, mon, fx):
+    p = ctx.params
+    kind = p["kind"]
+    cls = mon.T[kind]
+    with mon.hs.paused():
+        ex = extra_fixtures(ctx, mon, fx)
+    tk = TOMO_TRUE[kind]
+    true1 = {"qst": fx["state"][0], "povmt": fx["povm"][1], "qpt": fx["gate"][0], "qmpt": fx["mprocess"][0]}[kind]
+    true2 = ex[tk]
+    mon.physical.add(id(true1))
+    S, P = fx["state"], fx["povm"]
+    states_n = {1: [S[1]], 2: [S[0], S[1]], 3: [S[1], S[0], S[1]]}
+    povms_n = {1: [P[1]], 2: [P[0], P[1]], 3: [P[1], P[0], P[1]]}
+    # the list that the class does not take has one (placeholder) entry: its size is 1 whatever we choose
+    sizes_variants = {"qst": [(1, 1), (1, 2), (1, 3)], "povmt": [(1, 1), (2, 1), (3, 1)],
+                      "qpt": [(1, 1), (2, 2), (3, 3), (1, 3), (3, 1)], "qmpt": [(1, 1), (2, 2), (3, 3), (1, 3), (3, 1)]}[kind]
+
+    def construct(schedules, nst, npo, opt=None):
+        st, po = states_n[nst], povms_n[npo]
+        mon.step(f"{cls.__name__}(states={nst}, povms={npo}, options={opt[0] if opt else None}, schedules={repr(schedules)[:100]})")
+        try:
+            if opt is not None and opt[1] == "positional":
+                tail = (False, False, False, None, None, None, schedules)
+                a = {"qst": (po,), "povmt": (st, 3), "qpt": (st, po), "qmpt": (st, po, 2)}[kind]
+                return cls(*a, *tail)
+            kw = dict(opt[1]) if opt is not None else {}
+            if kind == "qst":
+                return cls(po, schedules=schedules, **kw)
+            if kind == "povmt":
+                return cls(st, 3, schedules=schedules, **kw)
+            if kind == "qpt":
+                return cls(st, po, schedules=schedules, **kw)
+            return cls(st, po, 2, schedules=schedules, **kw)
+        except Exception:  # noqa: BLE001 - judged by the hooks
+            ctx.count("history:tomography-rejected")
+            return None
+
+    def execute(qt, true_obj, schedules, tag, own):
+        """both execution paths of an accepted tomography; `own`: by the specification the schedules are a non-empty
+        list of schedules of the class's shape, so everything promised for accepted schedules applies"""
+        name = cls.__name__
+        info = mon.hist({"schedules": repr(schedules)[:200]})
+        with mon.tagged(tag):
+            ok, seq = ctx.attempt(qt.generate_prob_dists_sequence, true_obj)   # the calc_prob_dist hook judges every schedule
+        if not ok:
+            if own:
+                ctx.truth("tomography.execution", False, key=f"{name}.generate_prob_dists_sequence:accepted-schedules-fail:"
+                          + ctx.exc_key(seq) + tag, info=info)
+            return
+        if not own or len(seq) == 0:
+            return
+        ctx.truth("tomography.execution", True)
+        ok, pd = ctx.attempt(qt.calc_prob_dists, true_obj)
+        if not ok:
+            ctx.violation(f"{name}.calc_prob_dists:accepted-schedules-fail:" + ctx.exc_key(pd) + tag, info)
+            return
+        lens_c = [int(np.size(x)) for x in seq]
+        lens_m = [int(np.size(x)) for x in pd]
+        if not ctx.truth("tomography.model-execution:lengths", lens_c == lens_m,
+                         key=f"{name}.calc_prob_dists:accepted-schedules:wrong-distribution-lengths{tag}",
+                         info=dict(info, circuit=lens_c, model=lens_m)):
+            return
+        for x in pd:
+            x = np.asarray(x, dtype=float)
+            ctx.num("tomography.model-execution:normalised", max(abs(float(x.sum()) - 1.0), max(0.0, -float(x.min()))), 1e-9, 1e-6,
+                    key=f"{name}.calc_prob_dists:accepted-schedules:not-a-normalised-distribution{tag}", info=info)
+
+    def is_own(schedules, nst, npo):
+        sizes = {"state": nst if kind != "qst" else 1, "povm": npo if kind != "povmt" else 1,
+                 "gate": 1 if kind == "qpt" else 0, "mprocess": 1 if kind == "qmpt" else 0}
+        return (type(schedules) is list and len(schedules) > 0 and expected_list(schedules, sizes)[0] is True
+                and all(tomography_shape(kind, s, sizes) for s in schedules))
+
+    def go(schedules, nst, npo, opt=None, tag="", true_obj=None):
+        with mon.tagged(tag):
+            qt = construct(schedules, nst, npo, opt)
+        if qt is None:
+            return None
+        ctx.count("history:tomography-accepted")
+        if schedules == "all":
+            sch, own = qt.experiment.schedules, True
+        else:
+            sch, own = schedules, is_own(schedules, nst, npo)
+        execute(qt, true1 if true_obj is None else true_obj, sch, tag, own)
+        return qt
+
+    mid = [(m, 0) for m in TOMO_MIDDLE[kind]]
+
+    def own_list(pairs):
+        return [[("state", i)] + mid + [("povm", j)] for i, j in pairs]
+
+    A = WELL_TYPED
+    n = len(A)
+    blocks = list(range(n)) + ["options", "twice", "provenance"]
+    for ci in ctx.cases(len(blocks)):
+        blk = blocks[ci]
+        mon.trail = []
+        if blk == "options":
+            # (d) every non-default constructor option x own-shape lists, other shapes, every defect class, "all"
+            nst, npo = (1, 2) if kind == "qst" else (2, 1) if kind == "povmt" else (2, 2)
+            st_i = [0] if kind == "qst" else [0, 1]
+            po_j = [0] if kind == "povmt" else [0, 1]
+            full = [(i, j) for i in st_i for j in po_j]
+            cands = ["all", "All", own_list(full), own_list(full[::-1]), own_list(full[:1]), own_list(full + full[:1]),
+                     own_list(full[-1:]), [tuple(own_list(full[:1])[0])]]
+            cands += [[[("state", 0), ("povm", 0)]], [[("state", 0), ("gate", 0), ("povm", 0)]], [[("state", 0), ("mprocess", 0), ("povm", 0)]],
+                      [[("state", 0), ("gate", 0), ("gate", 0), ("povm", 0)]], [[("state", 0), ("mprocess", 0)]]]
+            cands += [own_list(full[:1]) + [d] for d in defect_pool()] + [[d] + own_list(full[-1:]) for d in defect_pool()]
+            for oname, o in TOMO_OPTIONS:
+                for sch in cands:
+                    mon.trail = []
+                    go(_copy.deepcopy(sch), nst, npo, (oname, o), tag=":option-" + oname)
+            ctx.nontrivial("tomo-history", kind, "options")
+        elif blk == "twice":
+            # (a)+(c) two living tomographies of the same class and size, asked in turn with two true objects
+            nst, npo = (1, 2) if kind == "qst" else (2, 1) if kind == "povmt" else (2, 2)
+            full = [(i, j) for i in range(1 if kind == "qst" else 2) for j in range(1 if kind == "povmt" else 2)]
+            for opt in (None, TOMO_OPTIONS[0]):
+                mon.trail = []
+                la, lb = own_list(full), own_list(full[::-1])
+                qa, qb = go(la, nst, npo, opt), go(lb, nst, npo, opt)
+                qc = go("all", nst, npo, opt)
+                for rnd, t in enumerate((true2, true1, true2)):
+                    for qt, sch in ((qa, la), (qb, lb), (qc, "all"), (qb, lb), (qa, la)):
+                        if qt is None:
+                            continue
+                        mon.step(f"execute #{rnd + 2}")
+                        execute(qt, t, qt.experiment.schedules if sch == "all" else sch, ":second-call", True)
+                        if rnd == 0:
+                            mon.step("generate_empi_dists / reset_seed")
+                            try:
+                                qt.generate_empi_dists(t, 8, 3)
+                                qt.reset_seed(4)
+                            except Exception:  # noqa: BLE001 - scipy's strict multinomial
+                                ctx.count("history:generate-call-raised")
+            ctx.nontrivial("tomo-history", kind, "twice")
+        elif blk == "provenance":
+            # (b) schedule lists that come out of the library / are shared between tomographies of different sizes
+            big = (1, 3) if kind == "qst" else (3, 1) if kind == "povmt" else (3, 3)
+            for opt in (None, TOMO_OPTIONS[0]):
+                for rnd in range(2):
+                    tag = ":schedules-from-library" if rnd == 0 else ":schedules-from-library:second-call"
+                    seen = []
+                    for nst, npo in sizes_variants + sizes_variants[::-1]:
+                        mon.trail = []
+                        qt = go("all", nst, npo, opt, tag=":interleaved-sizes" + (":second-call" if rnd else ""))
+                        if qt is None:
+                            continue
+                        seen.append(qt)
+                        lib = qt.experiment.schedules
+                        go(lib, nst, npo, opt, tag=tag)                       # the very list a living tomography holds
+                        go(qt.experiment.copy().schedules, nst, npo, opt, tag=tag)
+                        for m_st, m_po in sizes_variants:                     # ... given to the other sizes
+                            go(lib, m_st, m_po, opt, tag=tag)
+                        go(_copy.deepcopy(lib), *big, opt, tag=tag)
+                    for qt in seen:                                           # all of them are still alive: ask again
+                        execute(qt, true2, qt.experiment.schedules, ":second-call", True)
+            ctx.nontrivial("tomo-history", kind, "provenance")
+        else:
+            # (c) every schedule of length <= 3 whose first item is A[blk], for lists of several sizes IN TURN (so a
+            # verdict remembered from the previous sizes is exposed), plain and with the first non-default option
+            for extra in (0, 1, 2):
+                for suf in itertools.product(A, repeat=extra):
+                    for nst, npo in sizes_variants:
+                        mon.trail = []
+                        go([[A[blk], *suf]], nst, npo, tag=":interleaved-sizes")
+            ctx.nontrivial("tomo-history", kind, "sizes", repr(A[blk]))
+    mon.trail = []
+
+
 def run_shard(ctx):
     mon = Mon(ctx).install()
     hs = mon.hs
@@ -882,6 +1379,12 @@ def run_shard(ctx):
         elif mode == "setters":
             run_setters(ctx, mon, fx)
             need = ["Experiment.__init__", "Experiment.schedules.setter"] + [f"Experiment.{LISTARG[k]}.setter" for k in KINDS]
+        elif mode == "history":
+            run_history(ctx, mon, fx)
+            need = ["Experiment.__init__", "Experiment.schedules.setter", "Experiment.calc_prob_dist"] + [f"Experiment.{LISTARG[k]}.setter" for k in KINDS]
+        elif mode == "tomo-history":
+            run_tomo_history(ctx, mon, fx)
+            need = [f"{mon.T[ctx.params['kind']].__name__}.__init__", "Experiment.__init__", "Experiment.calc_prob_dist"]
         else:
             run_tomo(ctx, mon, fx)
             need = [f"{mon.T[ctx.params['kind']].__name__}.__init__", "Experiment.__init__"]
